@@ -467,6 +467,54 @@ def gen_faults(rng, programs, n):
     return faults
 
 
+def derive_world(rng, tier, base, name, methods):
+    """a second client's world derived from the first one's: the same user re-running a calculation with modified
+    settings (same data), or with other frequencies on the same volumes -- grids and array shapes stay (mostly) equal"""
+    import copy
+    import math
+    w = copy.deepcopy(base)
+    w["name"] = name
+    same_dir = w["datadir"] == w["cwd"]
+    w["cwd"] = "w" + name.lower()
+    w["datadir"] = ("w" if same_dir else "d") + name.lower()
+    kind = rng.choice(["settings", "settings", "freqs"])
+    ph = w["phonon"]
+    if kind == "freqs":
+        for q in range(ph["nq"]):
+            for m in range(ph["np"]):
+                if q == 0 and m < 3:
+                    continue
+                w0 = math.exp(rng.uniform(math.log(30.0), math.log(1500.0)))
+                g = rng.uniform(0.3, 2.5)
+                b = rng.uniform(-0.3, 0.3)
+                for iv, v in enumerate(ph["volumes"]):
+                    x = math.log(v / ph["v0"])
+                    ph["freqs"][iv][q][m] = W._sig(w0 * math.exp(-g * x + b * x * x))
+    q = w["settings"]["qha"]["settings"]
+    mg = w["settings"]["elast"]["settings"]["mode_gamma"]
+    changed = kind == "freqs"
+    if rng.random() < 0.6:
+        q["T_MIN"] = rng.choice([50, 300]) if q["T_MIN"] == 0 else 0
+        changed = True
+    if rng.random() < 0.3:
+        q["DT"] = rng.choice(W.DT_CHOICES)
+        if "DT_SAMPLE" in q:
+            q["DT_SAMPLE"] = q["DT"]
+        changed = True
+    if rng.random() < 0.5 or not changed:
+        m = rng.choice(methods)
+        mg["interpolator"] = m
+        mg["order"] = rng.choice(W.admissible_orders(m, ph["nv"]))
+        changed = True
+    if rng.random() < 0.2:
+        q["volume_ratio"] = rng.choice([1.1, 1.15, 1.25, 1.3])
+    if rng.random() < 0.15:
+        q["NT"] = rng.randint(4, 9)
+    w["derived_from"] = base["name"]
+    w["derived_kind"] = kind
+    return w
+
+
 SEG_ANY = {"calc.new", "calc.read", "calc.write", "cli.run", "cli.fill", "env.mutate_config"}
 SEG_RO = {"calc.new", "calc.read", "cli.fill"}
 
@@ -506,6 +554,9 @@ def gen_scenario(prop, seed, tier, faults_enabled=None, nclients=None, segments_
     names = ["A", "B", "C"][:nclients]
     worlds = {}
     for n in names:
+        if n != "A" and prop in ("C12", "C14", "C15") and worlds["A"]["valid"] and rng.random() < 0.45:
+            worlds[n] = derive_world(rng, tier, worlds["A"], n, C12_METHODS if prop == "C12" else GOOD_METHODS)
+            continue
         kw = {}
         if prop == "C12":
             kw["method"] = rng.choice(C12_METHODS)
